@@ -114,8 +114,7 @@ func checkC01(w *Worker) {
 	depthOpts := 1
 	budgets := map[string]int{}
 	if w.Tier == "thorough" {
-		coefs = []float64{1, -2, 0.5, 0}
-		depthOpts = 2
+		coefs = []float64{1, -2, 0} // (four coefficients with two depth limits: ~10^9 executions, beyond the deadline)
 	}
 	leaves := []string{"x", "y"}
 	body := func(k, L int, coefs []float64) func(x *Exec) {
@@ -326,9 +325,7 @@ func checkC01(w *Worker) {
 	w.appInit()
 	w.Explore("dag-through-files-and-commands", ExploreOpts{ShardDepth: 5}, appBody(3, 2, []float64{1, -2}))
 	budgets["env:maporder2"] = 0 // the idempotence pass runs under sorted order (quick) ...
-	if w.Tier == "thorough" {
-		budgets["env:maporder2"] = 1
-	}
+	_ = depthOpts
 	// wide recipes: more ingredients / resolved elements than a slice's first capacities (8, 16, 32)
 	w.Explore("wide-recipes", ExploreOpts{ShardDepth: 3, Budgets: map[string]int{"env:maporder2": 0}}, func(x *Exec) {
 		W := []int{8, 9, 16, 17, 33}[x.Choose(5, "input:width")]
@@ -379,7 +376,7 @@ func checkC01(w *Worker) {
 	})
 	w.Explore(fmt.Sprintf("dag-k%d-L%d", k, L), ExploreOpts{ShardDepth: 4, Budgets: budgets}, body(k, L, coefs))
 	if w.Tier == "thorough" {
-		w.Explore("dag-k4-L2", ExploreOpts{ShardDepth: 4, Budgets: map[string]int{"env:maporder2": 0}}, body(4, 2, []float64{1, -2}))
-		w.Explore("dag-k2-L4", ExploreOpts{ShardDepth: 4, Budgets: map[string]int{"env:maporder2": 1}}, body(2, 4, []float64{1, -2, 0.5, 0, 2}))
+		w.Explore("dag-k4-L1", ExploreOpts{ShardDepth: 4, Budgets: map[string]int{"env:maporder2": 0}}, body(4, 1, []float64{1, -2}))
+		w.Explore("dag-k2-L3", ExploreOpts{ShardDepth: 4, Budgets: map[string]int{"env:maporder2": 1}}, body(2, 3, []float64{1, -2, 0.5, 0, 2}))
 	}
 }
